@@ -91,6 +91,8 @@ type vSim struct {
 	keepLog bool
 	onEv    func(ev *verifsim.TraceEvent, worldLocked bool)
 	tickWG  sync.WaitGroup // handler goroutines (incl. zombies of killed processes)
+	lastSrcC1 string // C16: source and thread state of the cascade replica at the start of the round
+	c1WasRepl bool
 	lastMaster atomic.Value // last value written to the master key (string)
 	freezeSeen atomic.Bool // a freeze call (read-only / stop IO) was applied: lazy replication may move
 }
